@@ -37,6 +37,12 @@ for name, m, title, cls in rows:
     if now != "CAUGHT":
         n["now_missed"] += 1
     out.append("| %s | %s | %s | %s | `%s` | %s |" % (name, title.replace("|", "/"), first, now, cls, m.get("strengthened_with", "").replace("|", "/")))
+out += ["", "Not kept: C13 round 3 change b (Channel.Close without the sync.Once around the wake-up: two overlapping Close calls",
+        "panic with 'close of closed channel'). The quick check missed it at first; the test added for it (TestOverlappingCloses)",
+        "found that overlapping Close calls already race and can panic on the unchanged tree (both log out: concurrent sends on",
+        "one channel). That was repaired in /repo (3edf52c, closes are serialised); on the repaired tree the seeded change is no",
+        "longer observable (the second caller never reaches the wake-up), its demonstration passes with and without it, so it is",
+        "not a valid change any more. See known_findings.json (fixed: property=C13 3edf52c)."]
 out += ["", "%d changes; %d were missed by the quick check as it was when they came in; %d are missed now." % (len(rows), n["first_missed"], n["now_missed"]), ""]
 open("/verif/seeded/README.md", "w").write("\n".join(out))
 print(out[-2])
